@@ -175,6 +175,8 @@ func checkC01(p *Prog, r *Report) {
 
 	c01Builders(p, ib, r)
 	c01CallSites(p, ib, r)
+	r.Rule("R8", "the destination look-up decides 'exists' by equality of whole addresses: every hand-written element-wise comparison of two slices compares their lengths for equality (shared lint, C20-R6)")
+	sliceEqualityHelpers(p, r, "R8")
 	c01WhoMaySend(p, ib, r)
 	c01ReplyPayload(p, ib, r)
 	r.Assumes("inbound datagrams are abstracted to classifier x ackRequest x approval callbacks x payload-is-resultData; all other branch conditions are explored both ways",
@@ -390,7 +392,14 @@ func c01CallSites(p *Prog, ib *inbound, r *Report) {
 			case fn.Parent() != nil && recvAddressRe.MatchString(addr):
 				addrOK = true // closure of a local feature method (approval timeout)
 			case strings.Contains(addr, "FeatureByAddress().Address()"):
-				addrOK = true // the destination look-up result in ProcessCmd
+				// the destination look-up result in ProcessCmd: FeatureByAddress on the local device itself (the
+				// receiver), with the datagram's destination — not the look-up of the sending feature on the peer
+				if ac, ok := args[1].(*ssa.Call); ok {
+					if fb, ok := unwrapIface(callRecv(&ac.Call)).(*ssa.Call); ok && callRecv(&fb.Call) != nil {
+						fa := callArgs(&fb.Call)
+						addrOK = Path(callRecv(&fb.Call)) == "recv" && len(fa) == 1 && strings.HasSuffix(Path(fa[0]), ".AddressDestination")
+					}
+				}
 			case strings.HasSuffix(addr, ".Header.AddressDestination"):
 				// the requested destination: only where the destination is unknown or the classifier missing
 				for _, g := range Guards(site.Block()) {
